@@ -28,7 +28,7 @@ RULE = ('one evaluation = one seeded run: a sequence of 10-80 calls f(*args, **k
         'distinct = SHA-256 of the case / event log')
 ASSUMPTIONS = ['the probe function ignores the arguments listed in `ignore` (a function whose result depends on ignored arguments is outside the contract)',
                'without typed=True, numerically equal arguments (1, 1.0, True) may or may not share an entry; results are compared with ==']
-PROBES = ('hits', 'expired_recompute', 'stampede_threads', 'typed_runs', 'ignore_runs', 'functions', 'raising_calls')
+PROBES = ('hits', 'expired_recompute', 'stampede_threads', 'typed_runs', 'ignore_runs', 'functions', 'raising_calls', 'falsy_results')
 TECHNIQUE = 'deterministic simulation (virtual clock for expiry, seeded scheduler and random() for memoize_stampede) + differential checking against the undecorated function with an execution counter'
 LEVEL_TEXT = ('seeded exploration of call-signature sequences x decorator options under a controlled clock; key collisions show up as '
               'wrong results because the probe function encodes its call signature in its result; stampede recomputation is explored '
@@ -53,6 +53,10 @@ def gen_call(rng, nfun=1):
         call['fn'] = rng.randrange(nfun)
     if rng.random() < 0.08:
         call['raise'] = True
+    elif rng.random() < 0.15:
+        # what the function returns for these arguments is None or another falsy value: a result like any other
+        call['falsy'] = rng.choice((None, None, 0, '', False, {'t': []}, {'f': '0.0'}))
+        call['has_falsy'] = True
     return call
 
 
@@ -168,6 +172,7 @@ def build(world, cfg, counter, slow=None):
         return store, deco(probe)
 
     raising = cfg.get('_raising', set())
+    falsy = cfg.get('_falsy', {})
 
     def make(i):
         def probe(*args, **kwargs):
@@ -177,6 +182,8 @@ def build(world, cfg, counter, slow=None):
             res = (i,) + describe(args, kwargs, ignore)
             if repr(res) in raising:
                 raise ProbeError(repr(res))
+            if repr(res) in falsy:
+                return falsy[repr(res)]
             return res
         probe.__module__, probe.__qualname__ = cfg['fnames'][i]
         probe.__name__ = probe.__qualname__.split('.')[-1]
@@ -235,6 +242,13 @@ def run_seq(case):
                 repr((c.get('fn', 0),) + describe(tuple(vals.dec(a) for a in c['args']), {k: vals.dec(v) for k, v in c['kwargs'].items()}, ignore))
                 for c in case['calls'] if c.get('raise')))
             probes['functions'] = cfg['nfun']
+            fmap = {}
+            for c in case['calls']:
+                if c.get('has_falsy') and not c.get('raise'):
+                    r = repr((c.get('fn', 0),) + describe(tuple(vals.dec(a) for a in c['args']),
+                                                          {k: vals.dec(v) for k, v in c['kwargs'].items()}, ignore))
+                    fmap.setdefault(r, vals.dec(c['falsy']))
+            cfg['_falsy'] = fmap
         store, fns = build(world, cfg, counter)
         if not multi:
             fns = [fns]
@@ -253,8 +267,13 @@ def run_seq(case):
             kwargs = {k: vals.dec(v) for k, v in call['kwargs'].items()}
             want = describe(args, kwargs, ignore)
             fn = fns[call.get('fn', 0)]
+            falsy_result = False
             if multi:
                 want = (call.get('fn', 0),) + want
+                if repr(want) in cfg['_falsy'] and repr(want) not in cfg['_raising']:
+                    want = cfg['_falsy'][repr(want)]
+                    falsy_result = True
+                    probes['falsy_results'] = probes.get('falsy_results', 0) + 1
             before = counter['n']
             try:
                 got = fn(*args, **kwargs)
@@ -277,7 +296,11 @@ def run_seq(case):
                                    'detail': 'call #%d %s returned %r; the function raises for these arguments' % (idx, json.dumps(call), got)})
                 break
             key = repr(fn.__cache_key__(*args, **kwargs))
-            if not same_result(got, want, cfg['typed']):
+            if falsy_result:
+                ok_result = type(got) is type(want) and got == want
+            else:
+                ok_result = same_result(got, want, cfg['typed'])
+            if not ok_result:
                 prev = seen.get(key)
                 sig = 'shared-entry'
                 if separator_collision(got, want):
